@@ -24,6 +24,10 @@ type G struct {
 	W *world.World
 	// Bias is a per-property knob table (percentages).
 	Bias map[string]int
+	// proofIntent is the identifier the DID proof under construction is made for.
+	proofIntent string
+	// forceEmptyDocProof makes the next proof cover the id-less document.
+	forceEmptyDocProof bool
 	// groupProposer is set by signersFor when the messages must travel as a group proposal
 	// (1 + index of the proposing account), and consumed by the TxStep builder.
 	groupProposer int
